@@ -94,7 +94,7 @@ Rep(call, n) == [i \in 1..n |-> call]
 HWalkCase(p) ==
   LET n == Len(p.hs) + 2 IN
   [mem |-> HWalkImage(p), al |-> 0,
-   calls |-> <<[op |-> "hload"], [op |-> "htags", it |-> 0], [op |-> "next", it |-> 0], [op |-> "size_hint", it |-> 0],
+   calls |-> <<[op |-> "hload"], [op |-> "htags", it |-> 0], [op |-> "next", it |-> 0], [op |-> "size_hint", it |-> 0], [op |-> "for_each", it |-> 0],
                [op |-> "clone", it |-> 0, to |-> 1]>>
              \o <<[op |-> "last", it |-> 0], [op |-> "count", it |-> 0], [op |-> "clone", it |-> 0, to |-> 3], [op |-> "nth", it |-> 3, n |-> 1],
                   [op |-> "nth", it |-> 3, n |-> 2], [op |-> "next", it |-> 3],
